@@ -8,8 +8,9 @@ from pyvc.oblig import obligation
 from spec import events as ev_spec
 
 from .pipeline import Harness, requests_for
+from spyne.evmgr import EventManager
 
-FAMILIES = ['http', 'json', 'soap11', 'soap12', 'xml', 'yaml', 'msgpack', 'msgpackrpc']
+FAMILIES = ['http', 'httpout', 'json', 'soap11', 'soap12', 'xml', 'yaml', 'msgpack', 'msgpackrpc']
 FAIL_SITES = [None] + [(label, event, kind)
                        for event in ('method_call', 'method_return_object')
                        for label in ('app', 'service', 'method')
@@ -81,8 +82,89 @@ def _mk_serverbase(family):
 
 
 for _f in FAMILIES:
-    if _f != 'http':          # HttpRpc needs an HTTP transport context
+    if _f not in ('http', 'httpout'):          # HttpRpc needs an HTTP transport context
         _mk_serverbase(_f)
+
+
+@obligation('C14.pipeline.nullserver', targets=['spyne.server.null:_FunctionCall.__call__', 'spyne.server.null:_cb_sync',
+                                                'spyne.application:Application.process_request'],
+            desc="the event contract for a call made through the in-process NullServer (native objects in, native result "
+                 "or raised fault out; with ostr=True the response string): created first, closed last, each exactly once, "
+                 "user function at most once after method_call, return/exception object events exclusive -- for a known "
+                 "and an unknown method, every single failing listener, every outcome of the user function; document and "
+                 "string events are demanded only where NullServer produces a document (ostr=True, success)",
+            assumptions=ASSUME)
+def nullserver(c):
+    kind = c.choose(['valid', 'unknown_method'], 'request_kind')
+    failing = c.choose(FAIL_SITES, 'failing_listener') if kind == 'valid' else None
+    ostr = c.choose([False, True], 'ostr')
+    keyword = c.choose([False, True], 'keyword_call') if kind == 'valid' else False
+    h = Harness(c, 'soap11', failing=failing)
+    out = h.run_nullserver(kind, ostr=ostr, keyword=keyword)
+    valid = kind == 'valid'
+    fail_call = failing is not None and failing[1] == 'method_call'
+    user_reachable = valid and not fail_call
+    user_ok = user_reachable and h.user_outcome == 'return'
+    fail_ret = failing is not None and failing[1] == 'method_return_object' and user_ok
+    expected_fault = (not valid) or fail_call or fail_ret or (user_reachable and not user_ok)
+    c.check('raises_iff_the_call_ends_in_a_fault', out.raised == expected_fault, detail=repr(out))
+    docs = ['method_return_document', 'method_return_string'] if ostr and not expected_fault else []
+    for name, ok, detail in ev_spec.check_call(c.trace, expected_fault, user_ok, user_reachable, failing,
+                                               method_managers=h.method_managers, documents=docs):
+        c.check(name, ok, detail=detail)
+
+
+KEYWORDS = ['_evmgr', '_evmgrs', '_event_manager', '_event_managers']
+
+
+@obligation('C14.decorator.event_manager_keywords', targets=['spyne.decorator:_get_event_managers'],
+            desc="complete case analysis over the 16 subsets of the four keywords @rpc accepts for method-level event "
+                 "managers: none given -> no managers; exactly one given -> exactly the manager(s) passed (a singular "
+                 "keyword gives a one-element list), in the order passed; a singular together with its plural, or a short "
+                 "together with a long spelling -> LogicError; the keywords are consumed")
+def event_manager_keywords(c):
+    from spyne.decorator import _get_event_managers
+    from spyne import LogicError
+    present = [k for k in KEYWORDS if c.choose([False, True], k)]
+    a, b = EventManager(None), EventManager(None)
+    kparams = {'_unrelated': 1}
+    for k in present:
+        kparams[k] = [a, b] if k.endswith('s') else a
+    out = c.run(_get_event_managers, kparams)
+    if len(present) == 0:
+        c.check('no_keyword_no_managers', out.returned and list(out.value) == [], detail=repr(out))
+    elif len(present) == 1:
+        want = [a, b] if present[0].endswith('s') else [a]
+        c.check('exactly_the_managers_passed', out.returned and len(out.value) == len(want) and
+                all(x is y for x, y in zip(out.value, want)), detail=(present, repr(out)))
+    else:
+        c.check('conflicting_keywords_rejected', out.raised_a(LogicError), detail=(present, repr(out)))
+    if out.returned:
+        c.check('keywords_consumed', kparams == {'_unrelated': 1}, detail=sorted(kparams))
+
+
+@obligation('C14.pipeline.keywords', targets=['spyne.decorator:rpc', 'spyne.decorator:_get_event_managers',
+                                              'spyne.application:Application.process_request'],
+            desc="whichever of the four keywords registers the method-level event manager(s), their listeners see the call "
+                 "like the service's do: the whole event contract, for every single failing listener and every outcome of "
+                 "the user function", assumptions=ASSUME)
+def pipeline_keywords(c):
+    kw = c.choose(KEYWORDS, 'keyword')
+    failing = c.choose(FAIL_SITES, 'failing_listener')
+    h = Harness(c, 'json', failing=failing, evmgr_kw=kw)
+    out = h.run_wsgi('valid')
+    c.check('callable_returns', out.returned, detail=repr(out))
+    if not out.returned:
+        return
+    fail_call = failing is not None and failing[1] == 'method_call'
+    user_reachable = not fail_call
+    user_ok = user_reachable and h.user_outcome == 'return'
+    fail_ret = failing is not None and failing[1] == 'method_return_object' and user_ok
+    expected_fault = fail_call or fail_ret or (user_reachable and not user_ok)
+    for name, ok, detail in ev_spec.check_call(c.trace, expected_fault, user_ok, user_reachable, failing,
+                                               method_managers=h.method_managers):
+        c.check(name, ok, detail=detail)
+    c.check('method_level_listeners_ran', bool(ev_spec.events_of(c.trace, 'method')), detail=kw)
 
 
 # ---------------------------------------------------------------------------------------------
